@@ -28,6 +28,24 @@ FOCUS_R4 = {
     "C20": "release paths when system calls fail during lha_reader_extract (open, mkdir, symlink failing), lha_reader_free while a decoder is open in mid-member, the close callback of callback streams (exactly once), header reference counts in the deferred-symlink and directory lists, lha_input_stream_free on every stream kind",
 }
 
+# round 5: functions that the first four rounds touched least
+FOCUS_R5 = {
+    "C06": "the Unix metadata decoders of lib/ext_header.c (permissions, uid/gid, user and group names, Unix time stamp, Windows time stamps), the level-0 Unix/OS-9 extended areas and decode_ftime in lib/lha_file_header.c, and the by-path calls of lib/lha_arch_unix.c (lha_arch_mkdir, lha_arch_chmod, lha_arch_utime, lha_arch_symlink) with set_directory_metadata in lib/lha_reader.c",
+    "C07": "lib/macbinary.c (the MacBinary pass-through: lengths, what is counted and CRC-checked), the CRC and length bookkeeping of lib/lha_decoder.c, and how do_decode / lha_reader_check decide when a decoder (-lz5-, -lzs-, -pm1-, -pm2-, -lh1-) stops early or produces too much",
+    "C08": "the individual extended-header decoders of lib/ext_header.c when their data is shorter or longer than expected, the level-0 name / extended-area arithmetic and level-3 parsing in lib/lha_file_header.c, and what src/list.c does with odd but accepted headers",
+    "C09": "lib/lh1_decoder.c, lib/lz5_decoder.c, lib/lzs_decoder.c, lib/pm1_decoder.c and lib/pm2_decoder.c (NOT lib/lh_new_decoder.c, which has been used enough)",
+    "C10": "lib/lha_arch_unix.c calls that act on a path (lha_arch_mkdir, lha_arch_exists, lha_arch_chmod, lha_arch_utime, lha_arch_symlink), the deferred-symlink list of lib/lha_reader.c, and the way src/extract.c builds output paths and creates parent directories",
+    "C11": "collapse_path, fix_msdos_allcaps, process_level0_path / split_header_filename in lib/lha_file_header.c, the path and file-name extended-header decoders of lib/ext_header.c, OS-specific handling",
+    "C12": "decode_level0_header and decode_level2_header, check_common_crc, the final checks of lha_file_header_read (file without name, directory without path) and lib/lha_basic_reader.c",
+    "C13": "lib/bit_stream_reader.c, the loops of lib/lh1_decoder.c and lib/pm2_decoder.c, lha_basic_reader_read_compressed, lha_input_stream_skip and its callers, loops in src/extract.c and src/list.c",
+    "C14": "the read functions of the older decoders (-lz5-, -lzs-, -lh1-, -pm1-, -pm2-, -lh0-/null) in relation to the output buffer of lha_decoder_read, lha_decoder_new / lha_decoder_for_name, lha_decoder_get_length / lha_decoder_get_crc",
+    "C15": "lib/lha_basic_reader.c (curr_file_remaining, lha_basic_reader_read_compressed, lha_basic_reader_curr_file), the END_OF_FILE directory policy in lha_reader_next_file, lha_reader_current_is_fake, lha_reader_set_dir_policy called in the middle of a traversal",
+    "C16": "lha_input_stream_read (emptying the lead-in buffer with small and large requests), lha_input_stream_skip while the lead-in buffer still holds bytes, the chunking of file_source_skip_fallback, lha_input_stream_new / lha_input_stream_from_FILE / lha_input_stream_from",
+    "C18": "every column printer of src/list.c (name, symlink arrow, user and group names, OS names, unknown methods, permissions), the dry-run and 'p' banners of src/extract.c, print_filename",
+    "C19": "column widths, header and footer text per quiet level and verbosity, ratio rounding, OS-type names, header-level column, CRC column, date formats and the two-line layout of 'vv' in src/list.c",
+    "C20": "the free paths of lib/lha_file_header.c (strings replaced by later extended headers, lha_file_header_free / add_ref), lha_decoder_free and the decoders' own free callbacks, lib/macbinary.c, lha_basic_reader_free, lha_input_stream_free",
+}
+
 
 def prop_text(d):
     return "Property %s: %s\n\nStatement: %s\n\nQuantifier: %s\n\nWhy the existing tests cannot settle it: %s\n\nWhere it lives in the code (anchors): files %s\nMechanisms:\n%s\n" % (
@@ -37,6 +55,7 @@ def prop_text(d):
 
 def main():
     rdir, rname = sys.argv[1], sys.argv[2]
+    focus_table = {"fourth": FOCUS_R4, "fifth": FOCUS_R5}.get(rname, FOCUS_R5)
     os.makedirs(rdir, exist_ok=True)
     props = {}
     for l in open(os.path.join(VERIF, "properties.jsonl")):
@@ -54,13 +73,13 @@ IMPORTANT - this is a %s round. The following ideas have ALREADY been used by ot
 This time concentrate on: @@FOCUS@@.
 Aim for changes that are hard to notice: they should need a fault at a particular point (a failing allocation, write, close or other system call with a particular errno; end of input or a read error at a particular offset), a particular interleaving of two readers, a multi-step sequence of API calls or archive entries, an unusual but legal input shape, a particular state of the file system before the run, a particular combination of options, or two code sites that each look fine alone. A change whose effect is visible on every ordinary archive is not interesting.
 """ % rname
-    for p, focus in FOCUS_R4.items():
+    for p, focus in focus_table.items():
         d = os.path.join(rdir, p)
         t = tmpl.replace("@@DIR@@", d).replace("@@PROP@@", prop_text(props[p]))
         k = "\n".join(" - " + x for x in known.get(p, []))
         t = t.replace("What to produce:", extra.replace("@@KNOWN@@", k).replace("@@FOCUS@@", focus) + "\nWhat to produce:")
         open(os.path.join(rdir, "prompt_%s.txt" % p), "w").write(t)
-    print(" ".join(sorted(FOCUS_R4)))
+    print(" ".join(sorted(focus_table)))
 
 
 if __name__ == "__main__":
